@@ -16,6 +16,7 @@ or closure whose every use was spliced away is dropped from the program (it is n
 Recursive helpers are left alone.  The pass only ever *adds* precision: a body it cannot splice stays a call.
 """
 import copy
+import os
 import json
 import re
 
@@ -58,6 +59,11 @@ COMBINATORS = {
 }
 POLL_FN = "core::future::future::Future::poll"
 HM = "std::collections::hash::map::HashMap::<K, V, S, A>::"
+FROM_RESIDUAL = "core::ops::try_trait::FromResidual::from_residual"
+HANDLER_MARK = " as actix_web::service::HttpServiceFactory>::register::"
+ACTIX_ERROR = "actix_web::error::error::Error"
+INT_PRIMS = {"u8", "u16", "u32", "u64", "u128", "usize", "i8", "i16", "i32", "i64", "i128", "isize"}
+FN_TRAIT_CALLS = {"core::ops::function::FnOnce::call_once", "core::ops::function::FnMut::call_mut", "core::ops::function::Fn::call"}
 CHASE_THROUGH = {"core::pin::Pin::<Ptr>::new_unchecked", "core::pin::Pin::<Ptr>::new",
                  "core::future::into_future::IntoFuture::into_future"}
 
@@ -82,6 +88,64 @@ def split_targs(ty):
     if cur.strip():
         out.append(cur.strip())
     return out
+
+
+def unify_types(pattern, concrete, gens):
+    """{generic name: type} such that substituting into `pattern` (a printed type / trait reference mentioning the
+    generic parameters `gens`) gives `concrete`; None when there is no such (bracket-balanced) assignment."""
+    names = sorted(gens, key=len, reverse=True)
+    rx_name = re.compile(r"(?<![A-Za-z0-9_:'])(" + "|".join(re.escape(g) for g in names) + r")(?![A-Za-z0-9_])")
+    items, pos = [], 0          # literal strings and ("var", name)
+    for mm in rx_name.finditer(pattern):
+        if mm.start() > pos:
+            items.append(pattern[pos:mm.start()])
+        items.append(("var", mm.group(1)))
+        pos = mm.end()
+    if pos < len(pattern):
+        items.append(pattern[pos:])
+
+    def balanced_ends(start):
+        depth = 0
+        for j in range(start, len(concrete)):
+            ch = concrete[j]
+            if ch in "<([":
+                depth += 1
+            elif ch in ">)]":
+                if ch == ">" and j > 0 and concrete[j - 1] == "-":
+                    continue            # `->`
+                depth -= 1
+                if depth < 0:
+                    return
+            elif ch == "," and depth == 0:
+                yield j
+                return
+            if depth == 0:
+                yield j + 1
+
+    def go(i, at, env):
+        if i == len(items):
+            return env if at == len(concrete) else None
+        it = items[i]
+        if isinstance(it, str):
+            if concrete.startswith(it, at):
+                return go(i + 1, at + len(it), env)
+            return None
+        name = it[1]
+        if name in env:
+            v = env[name]
+            return go(i + 1, at + len(v), env) if concrete.startswith(v, at) else None
+        for end in balanced_ends(at):
+            if end <= at:
+                continue
+            r = go(i + 1, end, dict(env, **{name: concrete[at:end]}))
+            if r is not None:
+                return r
+        return None
+
+    r = go(0, 0, {})
+    if r is None or set(r) != set(gens):
+        return None
+    return r
 
 
 def _remap(node, off, boff):
@@ -119,9 +183,11 @@ def _subst_types(node, rx, mapping):
 
 
 class Normalizer:
-    def __init__(self, raw, keep):
+    def __init__(self, raw, keep, keep_types=()):
         self.raw = raw
         self.keep = keep
+        self.keep_types = set(keep_types)
+        self._struct_memo = {}
         self.bodies = {}        # (unit, def) -> body json
         self.by_def = {}        # def -> [(unit, body)]
         for fname, d in raw.items():
@@ -129,6 +195,25 @@ class Normalizer:
             for b in d["bodies"]:
                 self.bodies[(unit, b["def"])] = b
                 self.by_def.setdefault(b["def"], []).append((unit, b))
+        # workspace `impl From<T> for U` by trait reference (the def path of an impl for a foreign type is spelt differently)
+        self.from_impls = {}
+        for (unit, deff), b in self.bodies.items():
+            tr = b.get("impl_trait_ref") or ""
+            if b.get("impl_trait") == "core::convert::From" and deff.endswith("::from"):
+                self.from_impls[tr] = deff
+        # workspace trait-impl methods by instantiated path `<Self as Trait<..>>::name` (non-generic impls) and the
+        # generic ones separately: a trait-method call in a generic helper is resolved once the helper's type arguments
+        # are known (after splicing into a caller that fixes them)
+        self.impl_methods, self.generic_impl_methods = {}, []
+        for (unit, deff), b in self.bodies.items():
+            tr = b.get("impl_trait_ref")
+            if tr and b.get("kind") == "AssocFn":
+                key = tr + "::" + deff.rsplit("::", 1)[-1]
+                gens = [g for g in b.get("generics", []) if not g.startswith("<")]
+                if gens:
+                    self.generic_impl_methods.append((key, gens, deff))
+                else:
+                    self.impl_methods[key] = deff
         self.done = set()
         self.busy = set()
         self.notes = []
@@ -144,6 +229,13 @@ class Normalizer:
             if u.endswith("-lib"):
                 return u, b
         return None, None
+
+    def from_impl(self, unit, to, frm):
+        """def of the workspace function behind `impl From<frm> for to` (not one of the pinned tree's functions), or None."""
+        deff = self.from_impls.get("<%s as core::convert::From<%s>>" % (to, frm))
+        if deff is None or deff in self.keep or self.lookup(unit, deff)[1] is None:
+            return None
+        return deff
 
     # ------------------------------------------------------------------ building blocks
     @staticmethod
@@ -256,6 +348,13 @@ class Normalizer:
                 return ("closure", op["closure"], None)
             return None
         p = op["p"]
+        if p["proj"] and p["proj"][0]["k"] == "field" and all(e["k"] == "deref" for e in p["proj"][1:]):
+            # a captured variable of a spliced closure / coroutine (or a tuple field): (env.N) is the N-th operand of the
+            # construction
+            agg = self.closure_agg(body, p["l"]) or self.agg_of(body, p["l"])
+            if agg is None or p["proj"][0]["i"] >= len(agg["ops"]):
+                return None
+            return self.chase(body, agg["ops"][p["proj"][0]["i"]], depth + 1)
         if any(e["k"] not in ("deref",) for e in p["proj"]):
             return None
         ds = self.defs_of(body, p["l"])
@@ -277,6 +376,82 @@ class Normalizer:
         if rv["k"] == "aggregate" and rv["ak"] in ("closure", "coroutine"):
             return (rv["ak"], rv["def"], p["l"])
         return None
+
+    def closure_agg(self, body, l, depth=0):
+        """The closure construction a local holds (through plain moves / borrows), or None."""
+        if depth > 8:
+            return None
+        ds = self.defs_of(body, l)
+        if len(ds) != 1 or ds[0][0] != "stmt":
+            return None
+        rv = ds[0][2]["rv"]
+        if rv["k"] == "aggregate" and rv["ak"] == "closure":
+            return rv
+        if rv["k"] == "use" and rv["op"]["k"] in ("copy", "move") and all(e["k"] == "deref" for e in rv["op"]["p"]["proj"]):
+            return self.closure_agg(body, rv["op"]["p"]["l"], depth + 1)
+        if rv["k"] == "ref" and all(e["k"] == "deref" for e in rv["p"]["proj"]):
+            return self.closure_agg(body, rv["p"]["l"], depth + 1)
+        return None
+
+    def tuple_ops(self, body, op):
+        """Operands of the argument tuple of an `Fn*::call*` call."""
+        if op["k"] == "const":
+            return [] if op.get("ty") == "()" else None
+        if op["p"]["proj"]:
+            return None
+        ds = self.defs_of(body, op["p"]["l"])
+        if len(ds) != 1 or ds[0][0] != "stmt":
+            return None
+        rv = ds[0][2]["rv"]
+        if rv["k"] == "aggregate" and rv["ak"] == "tuple":
+            return rv["ops"]
+        return None
+
+    # ------------------------------------------------------------------ N1b: calls of function values
+    def try_fn_call(self, unit, body, bb):
+        """`f()` where f is a function-pointer parameter / `impl Fn` parameter of a spliced helper and the caller passed a
+        named function or a closure: the call is the call of that function (then spliced like any other)."""
+        t = body["blocks"][bb]["term"]
+        c = t["callee"]
+        if t.get("target") is None:
+            return False
+        if c.get("indirect") == "fnptr" and "op" in c:
+            w = self.chase(body, c["op"])
+            if w is None or w[0] not in ("fn", "closure"):
+                return False
+            if w[0] == "closure":
+                # a non-capturing closure coerced to a function pointer (its environment is empty and never read)
+                u, cb = self.lookup(unit, w[1])
+                if cb is None or (u, w[1]) in self.busy or cb.get("coroutine") or cb.get("upvars"):
+                    return False
+            fop, argops = c["op"], t["args"]
+        elif c.get("def") in FN_TRAIT_CALLS and len(t["args"]) == 2:
+            w = self.chase(body, t["args"][0])
+            if w is None or w[0] not in ("fn", "closure"):
+                return False
+            argops = self.tuple_ops(body, t["args"][1])
+            if argops is None:
+                return False
+            fop = t["args"][0]
+            if w[0] == "closure":
+                u, cb = self.lookup(unit, w[1])
+                if cb is None or (u, w[1]) in self.busy or cb.get("coroutine"):
+                    return False
+        else:
+            return False
+        span = t["span"]
+        saved = (len(body["locals"]), len(body["blocks"]))
+        entry = self.emit_invoke(unit, body, fop, w, argops, copy.deepcopy(t["dest"]), t["target"], span)
+        if entry is None:
+            del body["locals"][saved[0]:]
+            del body["blocks"][saved[1]:]
+            return False
+        body["blocks"][bb]["term"] = {"k": "goto", "target": entry, "span": span}
+        if w[0] == "closure":
+            u, _cb = self.lookup(unit, w[1])
+            self.consumed.add((u, w[1]))
+        self.notes.append("N1 call of a function value resolved to %s in %s" % (w[1], body["def"]))
+        return True
 
     # ------------------------------------------------------------------ splicing
     def splice(self, caller, callee, type_map=None):
@@ -317,7 +492,7 @@ class Normalizer:
         """Bind the closure environment parameter (_1 of the closure body)."""
         ty = callee["locals"][1]["ty"]
         dst = self.place(off + 1, ty)
-        if fop["k"] != "const" and ty.startswith("&"):
+        if fop["k"] != "const" and ty.startswith("&") and not fop["p"].get("ty", "").startswith("&"):
             return self.assign(dst, {"k": "ref", "bk": "mut" if ty.startswith("&mut") else "shared", "p": fop["p"]}, span)
         return self.assign(dst, self.use(fop), span)
 
@@ -353,9 +528,17 @@ class Normalizer:
         if c.get("def") == "core::convert::Into::into" and len(c.get("targs", [])) == 2 and t.get("target") is not None:
             # `x.into()` goes through std's blanket impl to `U::from(x)`: when that `impl From<T> for U` is workspace code
             # (a new private conversion), it is the function that runs
-            cand = "<%s as core::convert::From<%s>>::from" % (c["targs"][1], c["targs"][0])
-            if self.lookup(unit, cand)[1] is not None and cand not in self.keep:
+            cand = self.from_impl(unit, c["targs"][1], c["targs"][0])
+            if cand is not None:
                 c = dict(c, resolved=cand, ikind="item", targs=[])
+        if c.get("trait") and c.get("ikind") != "item" and c.get("def_args") and "resolved" not in c:
+            # `<A as Trait>::method` inside a generic helper, now that A is known: the impl method that runs
+            cand = self.impl_methods.get(c["def_args"])
+            if cand is None:
+                hits = [d_ for key, gens, d_ in self.generic_impl_methods if unify_types(key, c["def_args"], gens) is not None]
+                cand = hits[0] if len(hits) == 1 else None
+            if cand is not None and cand not in self.keep and self.lookup(unit, cand)[1] is not None:
+                c = dict(c, resolved=cand, ikind="item")
         if c.get("ikind") != "item" or not c.get("resolved") or t.get("target") is None:
             return False
         deff = c["resolved"]
@@ -378,7 +561,13 @@ class Normalizer:
             return False
         tm = None
         gens = [g for g in cb.get("generics", []) if not g.startswith("<")]
-        if gens:
+        if gens and cb.get("impl_trait_ref"):
+            # a method of a generic trait impl (`impl<T> Ext<T> for Result<T, E>`): the impl's parameters are read off
+            # the instantiated trait reference of the call
+            tm = unify_types(cb["impl_trait_ref"] + "::" + cb["def"].rsplit("::", 1)[-1], c.get("def_args", ""), gens)
+            if tm is None:
+                return False
+        elif gens:
             targs = c.get("targs", [])
             if len(targs) != len(gens):
                 return False
@@ -1157,6 +1346,475 @@ class Normalizer:
         blk["term"] = {"k": "goto", "target": t["target"], "span": t["span"]}
         return True
 
+    def try_int_from(self, body, bb):
+        """`i64::from(x)` / `x.into()` between primitive integer types is the lossless widening `x as i64`."""
+        t = body["blocks"][bb]["term"]
+        c = t["callee"]
+        d = c.get("def")
+        if d not in ("core::convert::From::from", "core::convert::Into::into") or t.get("target") is None or len(t["args"]) != 1:
+            return False
+        ta = c.get("targs", [])
+        if len(ta) != 2 or ta[0] not in INT_PRIMS or ta[1] not in INT_PRIMS:
+            return False
+        to = ta[0] if d.endswith("From::from") else ta[1]
+        blk = body["blocks"][bb]
+        blk["stmts"].append(self.assign(copy.deepcopy(t["dest"]), {"k": "cast", "ck": "IntToInt", "op": t["args"][0], "ty": to}, t["span"]))
+        blk["term"] = {"k": "goto", "target": t["target"], "span": t["span"]}
+        return True
+
+    # ------------------------------------------------------------------ N8: `?` with a workspace error conversion
+    def try_question_conv(self, unit, body, bb):
+        """`expr?` where the function's error type F differs from the expression's E and `impl From<E> for F` is workspace
+        code: from_residual(Err(e)) is Err(F::from(e)), written out so that the conversion is spliced."""
+        t = body["blocks"][bb]["term"]
+        c = t["callee"]
+        if c.get("def") != FROM_RESIDUAL or t.get("target") is None or len(t["args"]) != 1 or t["args"][0]["k"] == "const":
+            return False
+        ta = c.get("targs", [])
+        if len(ta) != 2 or not ta[0].startswith(RESULT + "<") or not ta[1].startswith(RESULT + "<core::convert::Infallible, "):
+            return False
+        a0, a1 = split_targs(ta[0]), split_targs(ta[1])
+        if len(a0) != 2 or len(a1) != 2 or a0[1] == a1[1]:
+            return False
+        F, E = a0[1], a1[1]
+        conv = self.from_impl(unit, F, E)
+        if conv is None:
+            return False
+        span = t["span"]
+        dest, target = t["dest"], t["target"]
+        tf = self.new_local(body, F, "error converted by `?`")
+        fin = self.new_block(body, [self.assign(copy.deepcopy(dest), self.agg(RESULT, "Err", [self.mv(self.place(tf, F))]), span)],
+                             {"k": "goto", "target": target, "span": span})
+        payload = self.mv(self.variant_payload(t["args"][0]["p"], RESULT, "Err", 1, E))
+        entry = self.emit_invoke(unit, body, {"ty": ""}, ("fn", conv, None), [payload], self.place(tf, F), fin, span)
+        body["blocks"][bb]["term"] = {"k": "goto", "target": entry, "span": span, "question_conv": conv}
+        self.notes.append("N8 `?` conversion %s written out in %s" % (conv, body["def"]))
+        return True
+
+    # ------------------------------------------------------------------ N9: handler error type converted by the framework
+    def handler_boundary(self, unit, body):
+        """A route handler returning Result<R, E> for a workspace type E with a workspace `impl From<E> for actix_web::Error`:
+        actix's Responder for Result<R, E: Into<Error>> answers `HttpResponse::from_error(err.into())`, so the value that
+        decides the response is From::from(e).  Every definition of the return value is rewritten to carry that converted
+        error, and the body is typed as returning actix_web::Error like the pinned tree's handlers."""
+        if HANDLER_MARK not in body["def"] or body.get("boundary_done"):
+            return False
+        body["boundary_done"] = True
+        rty = body["locals"][0]["ty"]
+        if not rty.startswith(RESULT + "<"):
+            return False
+        ta = split_targs(rty)
+        if len(ta) != 2 or ta[1] == ACTIX_ERROR:
+            return False
+        R, E = ta
+        conv = self.from_impl(unit, ACTIX_ERROR, E)
+        if conv is None:
+            return False
+        new_rty = "%s<%s, %s>" % (RESULT, R, ACTIX_ERROR)
+
+        def convert_from(src_place, span, cont):
+            """blocks: _0 = match src { Ok(v) => Ok(v), Err(e) => Err(From::from(e)) }; goto cont -- returns entry block"""
+            te = self.new_local(body, ACTIX_ERROR, "handler error converted by the framework")
+            fin_e = self.new_block(body, [self.assign(self.place(0, new_rty), self.agg(RESULT, "Err", [self.mv(self.place(te, ACTIX_ERROR))]), span)],
+                                   {"k": "goto", "target": cont, "span": span})
+            ent_e = self.emit_invoke(unit, body, {"ty": ""}, ("fn", conv, None), [self.mv(self.variant_payload(src_place, RESULT, "Err", 1, E))],
+                                     self.place(te, ACTIX_ERROR), fin_e, span)
+            ent_o = self.new_block(body, [self.assign(self.place(0, new_rty), self.agg(RESULT, "Ok", [self.mv(self.variant_payload(src_place, RESULT, "Ok", 0, R))]), span)],
+                                   {"k": "goto", "target": cont, "span": span})
+            st, sw = self._disc_switch(body, src_place, RESULT, ent_o, ent_e, span, "handler error boundary")
+            return self.new_block(body, [st], sw)
+
+        nblocks = len(body["blocks"])
+        for bi in range(nblocks):
+            b = body["blocks"][bi]
+            if b["cleanup"]:
+                continue
+            # statements defining _0 (process from the last one so that indices stay valid)
+            idxs = [k for k, s_ in enumerate(b["stmts"]) if s_["k"] == "assign" and s_["p"]["l"] == 0 and not s_["p"]["proj"]]
+            for k in reversed(idxs):
+                s_ = b["stmts"][k]
+                span = s_["span"]
+                rv = s_["rv"]
+                if rv["k"] == "aggregate" and rv.get("ak") == "adt" and rv.get("adt") == RESULT and rv.get("variant") == "Ok":
+                    s_["p"]["ty"] = new_rty
+                    continue
+                rest = b["stmts"][k + 1:]
+                tail = self.new_block(body, rest, b["term"])
+                body["blocks"][tail]["synthetic"] = b.get("synthetic", False)
+                if b.get("from"):
+                    body["blocks"][tail]["from"] = b["from"]
+                r = self.new_local(body, rty, "handler result before the framework's error conversion")
+                s_["p"] = self.place(r, rty)
+                b["stmts"] = b["stmts"][:k + 1]
+                entry = convert_from(self.place(r, rty), span, tail)
+                b["term"] = {"k": "goto", "target": entry, "span": span}
+            t = b["term"]
+            if t["k"] == "call" and t["dest"]["l"] == 0 and not t["dest"]["proj"] and t.get("target") is not None:
+                span = t["span"]
+                r = self.new_local(body, rty, "handler result before the framework's error conversion")
+                t["dest"] = self.place(r, rty)
+                t["target"] = convert_from(self.place(r, rty), span, t["target"])
+        body["locals"][0]["ty"] = new_rty
+        self.notes.append("N9 handler error type %s converted at the framework boundary (%s) in %s" % (E, conv, body["def"]))
+        return True
+
+    # ------------------------------------------------------------------ N10: private struct locals split into their fields
+    def struct_fields(self, adt):
+        """[(field name, type)] of a workspace struct that is NOT one of the pinned tree's types (a private helper struct
+        introduced by a refactoring: `BodyBuffer { data, max_size }`, `BodyLimit(usize)`), else None."""
+        if adt not in self._struct_memo:
+            res = None
+            if adt not in self.keep_types:
+                for d in self.raw.values():
+                    for a in d.get("adts", []):
+                        if a["def"] == adt and a.get("kind") == "Struct" and len(a.get("variants", [])) == 1:
+                            res = [(f["name"], f["ty"]) for f in a["variants"][0]["fields"]]
+            self._struct_memo[adt] = res
+        return self._struct_memo[adt]
+
+    @staticmethod
+    def places(body):
+        """Every place dict (base local + projection) in the non-debug part of the body."""
+        out = []
+
+        def visit(x):
+            if isinstance(x, dict):
+                if isinstance(x.get("l"), int) and "proj" in x:
+                    out.append(x)
+                    return
+                for v in x.values():
+                    visit(v)
+            elif isinstance(x, list):
+                for v in x:
+                    visit(v)
+        for b in body["blocks"]:
+            visit(b["stmts"])
+            visit(b["term"])
+        return out
+
+    def agg_of(self, body, l, depth=0):
+        """The tuple / closure / coroutine construction a local holds (through plain whole moves), or None."""
+        if depth > 8 or (1 <= l <= body["arg_count"]):
+            return None
+        ds = self.defs_of(body, l)
+        if len(ds) != 1 or ds[0][0] != "stmt":
+            return None
+        rv = ds[0][2]["rv"]
+        if rv["k"] == "aggregate" and rv["ak"] in ("closure", "coroutine", "tuple"):
+            return rv
+        if rv["k"] == "use" and rv["op"]["k"] in ("copy", "move") and not rv["op"]["p"]["proj"]:
+            return self.agg_of(body, rv["op"]["p"]["l"], depth + 1)
+        return None
+
+    def ref_target(self, body, l, depth=0):
+        """The place a reference-typed local points to on every path: (base local, projections) rooted at a local, or None."""
+        if depth > 12 or (1 <= l <= body["arg_count"]) or l == 0:
+            return None
+        ds = self.defs_of(body, l)
+        if len(ds) != 1 or ds[0][0] != "stmt":
+            return None
+        rv = ds[0][2]["rv"]
+        if rv["k"] == "ref":
+            return self.norm_place(body, rv["p"], depth + 1)
+        if rv["k"] == "use" and rv["op"]["k"] in ("copy", "move"):
+            sp = rv["op"]["p"]
+            if not sp["proj"]:
+                return self.ref_target(body, sp["l"], depth + 1)
+            if len(sp["proj"]) == 1 and sp["proj"][0]["k"] == "field":
+                agg = self.agg_of(body, sp["l"])
+                if agg is not None and sp["proj"][0]["i"] < len(agg["ops"]):
+                    o = agg["ops"][sp["proj"][0]["i"]]
+                    if o["k"] in ("copy", "move") and not o["p"]["proj"]:
+                        return self.ref_target(body, o["p"]["l"], depth + 1)
+        return None
+
+    def norm_place(self, body, p, depth=0):
+        """p with a leading `*r` replaced by what r points to; None when the place is not rooted at a plain local."""
+        proj = list(p["proj"])
+        if proj and proj[0]["k"] == "deref":
+            t = self.ref_target(body, p["l"], depth + 1)
+            if t is None:
+                return None
+            return (t[0], t[1] + proj[1:])
+        if any(e["k"] not in ("field",) for e in proj):
+            return None
+        return (p["l"], proj)
+
+    def split_structs(self, body):
+        """References to (fields of) a private struct local are followed to the local, then the struct local is replaced by
+        one local per field: `body.data.extend_from_slice(..)` in a method of `BodyBuffer` spliced into the handler becomes an
+        operation on the handler's own `Vec`, the shape the rules are stated over."""
+        locs = body["locals"]
+        fam = {}
+        for i, l in enumerate(locs):
+            if i == 0 or (1 <= i <= body["arg_count"]) or l.get("split"):
+                continue
+            f = self.struct_fields(l["ty"])
+            if f is not None:
+                fam[i] = f
+        if not fam:
+            return False
+        # 1. follow references rooted at a family local
+        changed = False
+        for pl in self.places(body):
+            if pl["proj"] and pl["proj"][0]["k"] == "deref":
+                t = self.norm_place(body, pl)
+                if t is not None and t[0] in fam:
+                    pl["l"], pl["proj"] = t[0], copy.deepcopy(t[1])
+                    changed = True
+        # 2. which family locals are used only field-wise / by whole moves inside the family / through forwarded references
+        ok = set(fam)
+        carriers = {}
+
+        def harmless_ref(r, seen, kind="ref"):
+            """r holds a reference to the struct (kind 'ref') or a value / reference that carries one (kind 'box': the
+            coroutine of an `async fn` method that captured `&mut self`, the pinned future): every dereference of the reference
+            was forwarded above, so the value only travels -- moves, captures, borrows of the carrier, identity transports,
+            drops -- and is never read through or handed to a call."""
+            if (r, kind) in seen:
+                return True
+            seen.add((r, kind))
+            if r == 0 or (1 <= r <= body["arg_count"]):
+                return self._n10dbg(('w', r, kind))
+            for b in body["blocks"]:
+                for st in b["stmts"]:
+                    if st["k"] != "assign":
+                        continue
+                    rv = st["rv"]
+                    used = [x for x in self._places_in(rv) if x["l"] == r]
+                    if not used:
+                        if st["p"]["l"] == r and st["p"]["proj"]:
+                            return self._n10dbg(('x', r, kind, b['i']))
+                        continue
+                    if st["p"]["proj"] or len(used) != 1:
+                        return self._n10dbg(('y', r, kind, b['i']))
+                    u = used[0]
+                    if rv["k"] == "use" and not u["proj"]:
+                        nk = kind
+                    elif rv["k"] == "use" and kind != "ref" and len(u["proj"]) == 1 and u["proj"][0]["k"] == "field":
+                        if isinstance(kind, tuple) and kind[1] is not None and u["proj"][0]["i"] != kind[1]:
+                            continue        # another capture of the same carrier
+                        nk = "ref"          # the reference read back out of the carrier
+                    elif rv["k"] == "aggregate" and rv["ak"] in ("closure", "coroutine", "tuple") and not u["proj"]:
+                        idx = [k for k, o in enumerate(rv["ops"]) if o.get("p") is u]
+                        nk = ("box", idx[0] if kind == "ref" and len(idx) == 1 else None)
+                    elif rv["k"] == "ref" and not u["proj"]:
+                        nk = ("box", None)
+                    elif rv["k"] == "ref" and kind != "ref" and all(e["k"] == "deref" for e in u["proj"]):
+                        nk = ("box", None)  # reborrow of a reference to the carrier
+                    else:
+                        return self._n10dbg(('y', r, kind, b['i']))
+                    if not harmless_ref(st["p"]["l"], seen, nk):
+                        return self._n10dbg(('y', r, kind, b['i']))
+                t = b["term"]
+                if t["k"] == "drop":
+                    continue
+                if t["k"] == "call" and t["dest"]["l"] == r and not t["dest"]["proj"] \
+                        and not any(x["l"] == r for x in self._places_in(t["args"]) + self._places_in(t["callee"])):
+                    continue            # (its definition by an identity transport, followed from the argument)
+                if any(x["l"] == r for x in self._places_in(t)):
+                    if t["k"] == "call" and t["callee"].get("def") in CHASE_THROUGH and not t["dest"]["proj"] and t["dest"]["l"] != r \
+                            and all(not x["proj"] for x in self._places_in(t["args"]) if x["l"] == r):
+                        # an identity transport of the value that carries the reference (into_future, Pin::new_unchecked)
+                        if not harmless_ref(t["dest"]["l"], seen, kind if kind != "ref" else ("box", None)):
+                            return self._n10dbg(('x', r, kind, b['i']))
+                        continue
+                    return self._n10dbg(('z', r, kind, b['i']))
+            return True
+
+        again = True
+        while again:
+            again = False
+            for s_ in list(ok):
+                good = True
+                why = None
+                for b in body["blocks"]:
+                    for st in b["stmts"]:
+                        if st["k"] != "assign":
+                            continue
+                        dst, rv = st["p"], st["rv"]
+                        whole_src = [x for x in self._places_in(rv) if x["l"] == s_ and not (x["proj"] and x["proj"][0]["k"] == "field")]
+                        whole_dst = dst["l"] == s_ and not (dst["proj"] and dst["proj"][0]["k"] == "field")
+                        if whole_dst:
+                            if dst["proj"]:
+                                good = False; why = ("dst-proj", b["i"])
+                            elif rv["k"] == "aggregate" and rv.get("ak") == "adt" and rv.get("adt") == locs[s_]["ty"]:
+                                pass
+                            elif rv["k"] == "use" and rv["op"]["k"] in ("copy", "move") and not rv["op"]["p"]["proj"] and rv["op"]["p"]["l"] in ok \
+                                    and locs[rv["op"]["p"]["l"]]["ty"] == locs[s_]["ty"]:
+                                pass
+                            else:
+                                good = False; why = ("whole-def", b["i"], rv["k"])
+                        if whole_src:
+                            if any(x["proj"] for x in whole_src):
+                                good = False; why = ("src-proj", b["i"])
+                            elif rv["k"] == "use" and not dst["proj"] and dst["l"] in ok and locs[dst["l"]]["ty"] == locs[s_]["ty"]:
+                                pass
+                            elif rv["k"] == "ref" and not dst["proj"] and harmless_ref(dst["l"], set()):
+                                carriers[(b["i"], id(st))] = st
+                            else:
+                                good = False; why = ("whole-use", b["i"], rv["k"], dst["l"])
+                    t = b["term"]
+                    if t["k"] == "drop":
+                        if t["p"]["l"] == s_ and t["p"]["proj"] and t["p"]["proj"][0]["k"] != "field":
+                            good = False
+                        continue
+                    if any(x["l"] == s_ and not (x["proj"] and x["proj"][0]["k"] == "field") for x in self._places_in(t)):
+                        good = False; why = ("terminator", b["i"], t["k"])
+                if not good:
+                    if os.environ.get("TCSS_DEBUG_N10"):
+                        print("N10: _%d disqualified in %s: %s" % (s_, body["def"][-60:], why))
+                    ok.discard(s_)
+                    again = True
+        if not ok:
+            return changed
+        # 3. split
+        span0 = body["blocks"][0]["term"]["span"]
+        fl = {}
+        names = {d["p"]["l"]: d["name"] for d in body.get("debug", []) if d.get("p") and not d["p"]["proj"]}
+        for s_ in sorted(ok):
+            fl[s_] = []
+            for fname, fty in fam[s_]:
+                n = self.new_local(body, fty, "field %s of the private struct local _%d" % (fname, s_))
+                fl[s_].append(n)
+                if s_ in names:
+                    body.setdefault("debug", []).append({"name": "%s.%s" % (names[s_], fname), "p": self.place(n, fty)})
+        for b in body["blocks"]:
+            new_stmts = []
+            for st in b["stmts"]:
+                if st["k"] == "assign" and st["p"]["l"] in ok and not st["p"]["proj"]:
+                    s_, rv, sp = st["p"]["l"], st["rv"], st["span"]
+                    if rv["k"] == "aggregate":
+                        for k, (fname, fty) in enumerate(fam[s_]):
+                            j = rv["fields"].index(fname) if fname in rv.get("fields", []) else k
+                            new_stmts.append(self.assign(self.place(fl[s_][k], fty), self.use(rv["ops"][j]), sp))
+                    else:
+                        src = rv["op"]["p"]["l"]
+                        for k, (fname, fty) in enumerate(fam[s_]):
+                            new_stmts.append(self.assign(self.place(fl[s_][k], fty), self.use({"k": rv["op"]["k"], "p": self.place(fl[src][k], fty)}), sp))
+                    continue
+                if st["k"] == "assign" and st["rv"]["k"] == "ref" and st["rv"]["p"]["l"] in ok and not st["rv"]["p"]["proj"]:
+                    # a reference to the whole struct whose every dereference was forwarded: nothing reads it any more
+                    st["rv"] = self.use({"k": "const", "ty": st["p"]["ty"], "forwarded_ref": True})
+                new_stmts.append(st)
+            b["stmts"] = new_stmts
+        for pl in self.places(body):
+            if pl["l"] in ok and pl["proj"] and pl["proj"][0]["k"] == "field":
+                idx = pl["proj"][0]["i"]
+                pl["l"] = fl[pl["l"]][idx]
+                pl["proj"] = pl["proj"][1:]
+        for b in list(body["blocks"]):
+            t = b["term"]
+            if t["k"] == "drop" and t["p"]["l"] in ok and not t["p"]["proj"]:
+                s_ = t["p"]["l"]
+                target = t["target"]
+                for k in reversed(range(len(fam[s_]))):
+                    term = {"k": "drop", "p": self.place(fl[s_][k], fam[s_][k][1]), "target": target, "unwind": t.get("unwind"), "span": t["span"]}
+                    if k == 0:
+                        b["term"] = term
+                    else:
+                        nb = self.new_block(body, [], term)
+                        body["blocks"][nb]["cleanup"] = b["cleanup"]
+                        target = nb
+        for s_ in sorted(ok):
+            locs[s_]["split"] = True
+            self.notes.append("N10 private struct local _%d (%s) split into its fields in %s" % (s_, locs[s_]["ty"].rsplit("::", 1)[-1], body["def"]))
+        return True
+
+    @staticmethod
+    def _n10dbg(info):
+        if os.environ.get("TCSS_DEBUG_N10"):
+            print("N10 carrier check failed at", info)
+        return False
+
+    def _places_in(self, x):
+        out = []
+
+        def visit(y):
+            if isinstance(y, dict):
+                if isinstance(y.get("l"), int) and "proj" in y:
+                    out.append(y)
+                    return
+                for v in y.values():
+                    visit(v)
+            elif isinstance(y, list):
+                for v in y:
+                    visit(v)
+        visit(x)
+        return out
+
+    # ------------------------------------------------------------------ N7: match on a known variant
+    def known_variant(self, body, place, depth=0):
+        """(adt, variant name) when the place holds a literal enum value on every path (a constant selector handed to a
+        spliced helper: `helper(Kind::A)` ... `match kind { Kind::A => .., Kind::B => .. }`)."""
+        if depth > 8 or place["proj"]:
+            return None
+        l = place["l"]
+        if 1 <= l <= body["arg_count"]:
+            return None
+        ds = self.defs_of(body, l)
+        if len(ds) != 1 or ds[0][0] != "stmt":
+            return None
+        for b in body["blocks"]:
+            for s in b["stmts"]:
+                if s["k"] == "assign":
+                    if s["p"]["l"] == l and s["p"]["proj"]:
+                        return None
+                    if s["rv"]["k"] in ("ref", "addr") and s["rv"].get("p", {}).get("l") == l and s["rv"].get("bk") != "shared":
+                        return None
+        rv = ds[0][2]["rv"]
+        if rv["k"] == "aggregate" and rv["ak"] == "adt" and rv.get("variant") is not None:
+            return (rv["adt"], rv["variant"])
+        if rv["k"] == "use" and rv["op"]["k"] in ("copy", "move"):
+            return self.known_variant(body, rv["op"]["p"], depth + 1)
+        return None
+
+    def fold_known_switches(self, body):
+        changed = False
+        for b in body["blocks"]:
+            t = b["term"]
+            if t["k"] != "switch" or t["discr"]["k"] == "const" or t["discr"]["p"]["proj"]:
+                continue
+            dl = t["discr"]["p"]["l"]
+            ds = self.defs_of(body, dl)
+            if len(ds) != 1 or ds[0][0] != "stmt" or ds[0][1] != b["i"] or ds[0][2]["rv"]["k"] != "discriminant":
+                continue
+            rv = ds[0][2]["rv"]
+            kv = self.known_variant(body, rv["p"])
+            if kv is None or kv[0] != rv.get("adt"):
+                continue
+            dv = [v["discr"] for v in rv.get("variants", []) if v["name"] == kv[1]]
+            if len(dv) != 1:
+                continue
+            tg = [a["t"] for a in t["arms"] if a["v"] == dv[0]]
+            target = tg[0] if tg else t["otherwise"]
+            b["term"] = {"k": "goto", "target": target, "span": t["span"], "folded_switch": kv[1]}
+            self.notes.append("N7 match on the literal %s::%s folded in %s" % (kv[0].rsplit("::", 1)[-1], kv[1], body["def"]))
+            changed = True
+        if changed:
+            self.prune_unreachable(body)
+        return changed
+
+    @staticmethod
+    def prune_unreachable(body):
+        seen, st = set(), [0]
+        while st:
+            i = st.pop()
+            if i in seen:
+                continue
+            seen.add(i)
+            t = body["blocks"][i]["term"]
+            nxt = []
+            if t["k"] == "switch":
+                nxt = [a["t"] for a in t["arms"]] + [t["otherwise"]]
+            else:
+                nxt = [t.get(k) for k in ("target", "unwind", "drop", "resume")]
+            st.extend(x for x in nxt if isinstance(x, int))
+        for b in body["blocks"]:
+            if b["i"] not in seen and (b["stmts"] or b["term"]["k"] != "unreachable"):
+                b["stmts"] = []
+                b["term"] = {"k": "unreachable", "span": b["term"]["span"], "pruned": True}
+
     # ------------------------------------------------------------------ driver
     def norm(self, unit, body):
         key = (unit, body["def"])
@@ -1165,6 +1823,8 @@ class Normalizer:
         if key in self.busy:
             return False        # recursion: leave the call alone
         self.busy.add(key)
+        self._unit = unit
+        self.handler_boundary(unit, body)
         changed = True
         rounds = 0
         while changed and rounds < 50:
@@ -1175,11 +1835,15 @@ class Normalizer:
                 b = body["blocks"][i]
                 if not b["cleanup"] and b["term"]["k"] == "call" and len(body["blocks"]) < 4000:
                     self._unit = unit
-                    if (self.try_inline_fn(unit, body, i) or self.try_combinator(unit, body, i) or self.try_transpose(body, i) or self.try_option_misc(unit, body, i) or self.try_array_contains(body, i)
-                            or self.try_poll(unit, body, i) or self.try_cmp(body, i) or self.try_entry(body, i)
+                    if (self.try_inline_fn(unit, body, i) or self.try_fn_call(unit, body, i) or self.try_question_conv(unit, body, i) or self.try_combinator(unit, body, i) or self.try_transpose(body, i) or self.try_option_misc(unit, body, i) or self.try_array_contains(body, i)
+                            or self.try_poll(unit, body, i) or self.try_cmp(body, i) or self.try_int_from(body, i) or self.try_entry(body, i)
                             or self.try_iter_loop(unit, body, i) or self.try_range(body, i)):
                         changed = True
                 i += 1
+            if not changed and self.fold_known_switches(body):
+                changed = True
+            if not changed and self.split_structs(body):
+                changed = True
         self.busy.discard(key)
         self.done.add(key)
         return True
@@ -1259,6 +1923,9 @@ class Normalizer:
         coroutines whose only use was spliced."""
         removed = True
         gone = self._gone = set()
+        # nominally `pub` but not reachable from outside the crate (a `pub` item of a private module that is not
+        # re-exported): nobody else can call it, so a copy spliced into every caller replaces it
+        unreach = set((d["crate"] + "-" + d["crate_type"], x) for d in self.raw.values() for x in d.get("pub_unreachable", []))
         while removed:
             removed = False
             refs = {}
@@ -1292,7 +1959,7 @@ class Normalizer:
                 unit, deff = key
                 b = self.bodies[key]
                 others = set(o for o in refs.get(deff, set()) if o != key)
-                if key in self.inlined_fns and b.get("vis") != "Public" and not others:
+                if key in self.inlined_fns and (b.get("vis") != "Public" or key in unreach) and not others:
                     # its coroutine / closures live on only as spliced copies
                     gone.add(key)
                     removed = True
@@ -1306,6 +1973,6 @@ class Normalizer:
             self.notes.append("dropped %s (every use spliced)" % key[1])
 
 
-def normalize(raw, keep):
+def normalize(raw, keep, keep_types=()):
     raw = json.loads(json.dumps(raw))     # private copy: the cache object is shared
-    return Normalizer(raw, keep).run()
+    return Normalizer(raw, keep, keep_types).run()
